@@ -175,7 +175,7 @@ def _run_chunk(args):
     return outs
 
 
-def run_lines(exe_cmd, lines, env=None, jobs=None, timeout=600):
+def run_lines(exe_cmd, lines, env=None, jobs=None, timeout=600, per_chunk=200):
     """One self-contained input line -> one output line; crash-resilient; parallel over chunks."""
     if not lines:
         return []
@@ -185,7 +185,7 @@ def run_lines(exe_cmd, lines, env=None, jobs=None, timeout=600):
         e.update(env)
     exe_cmd = [str(x) for x in exe_cmd]
     jobs = jobs or NCPU
-    n = max(1, min(jobs, len(lines) // 200 + 1))
+    n = max(1, min(jobs, len(lines) // per_chunk + 1))
     size = (len(lines) + n - 1) // n
     chunks = [lines[k:k + size] for k in range(0, len(lines), size)]
     with cf.ThreadPoolExecutor(n) as ex:
@@ -347,12 +347,12 @@ class Result:
                 "harness": ", ".join(self.harness), "rule": " | ".join(self.rules), "extra": self.extra}
 
 
-def correspond(ctx, res, harness, mode, lines, holds, classify=None, trivial=None, vm="direct", exe_args=(), env=None, sample=3, rule=""):
+def correspond(ctx, res, harness, mode, lines, holds, classify=None, trivial=None, vm="direct", exe_args=(), env=None, sample=3, rule="", per_chunk=200):
     """Run `lines` through the real code (harness) and the Lean model (grdriver <mode>), diff, and evaluate the
     property predicate `holds(line, impl_out) -> (True|False|None, why)` on the implementation's own output."""
     exe = build_harness(harness, vm=vm)
-    impl = run_lines([exe] + list(exe_args), lines, env=env)
-    model = run_lines([driver_path(), mode], lines) if ctx.model_ok else [None] * len(lines)
+    impl = run_lines([exe] + list(exe_args), lines, env=env, per_chunk=per_chunk)
+    model = run_lines([driver_path(), mode], lines, per_chunk=per_chunk) if ctx.model_ok else [None] * len(lines)
     tag = "%s/%s" % (harness, mode)
     if tag not in res.harness:
         res.harness.append(tag)
@@ -372,9 +372,9 @@ def correspond(ctx, res, harness, mode, lines, holds, classify=None, trivial=Non
             res.faults += 1
         ok, why = holds(l, i)
         if ok is False:
-            res.failures.append({"harness": harness, "mode": mode, "vm": vm, "line": l, "impl": i, "model": m, "why": why})
+            res.failures.append({"harness": harness, "mode": mode, "vm": vm, "line": l, "impl": i, "model": m, "why": why, "exe_args": [str(x) for x in exe_args]})
         if m is not None and i != m:
-            res.disagreements.append({"harness": harness, "mode": mode, "vm": vm, "line": l, "impl": i, "model": m, "explained_by_failure": ok is False})
+            res.disagreements.append({"harness": harness, "mode": mode, "vm": vm, "line": l, "impl": i, "model": m, "explained_by_failure": ok is False, "exe_args": [str(x) for x in exe_args]})
         if idx in picks:
             res.samples.append({"in": l[:300], "impl": i[:300], "model": (m or "")[:300]})
     return impl, model
@@ -386,7 +386,7 @@ def replay_lines(ctx, obj, holds_by_mode):
     still = False
     for it in items:
         exe = build_harness(it["harness"], vm=it.get("vm", "direct"))
-        i = run_lines([exe], [it["line"]])[0]
+        i = run_lines([exe] + it.get("exe_args", []), [it["line"]])[0]
         m = run_lines([driver_path(), it["mode"]], [it["line"]])[0] if driver_path().exists() else None
         ok, why = holds_by_mode[it["mode"]](it["line"], i)
         print("input : %s\nimpl  : %s\nmodel : %s\nproperty predicate on impl output: %s %s" % (it["line"][:500], i[:500], (m or "")[:500], ok, why or ""))
